@@ -162,6 +162,7 @@ type simNode struct {
 	stopped  bool // the node shut itself down (stateLoop returned)
 	skipCase bool // the event just executed is outside the modelled fragment: no case is emitted for it
 	snapReq  *simSnapReq
+	votes    simVotes
 }
 
 var errSimAbort = errors.New("sim: dial aborted")
@@ -191,7 +192,12 @@ func newSimNode(dir string, cid, nid uint64, opt Options) (*simNode, error) {
 		return nil, err
 	}
 	n := &simNode{r: r, fsm: fsm, dir: dir, abort: make(chan struct{})}
+	grantingVote = simGrantingVote
 	r.dialFn = func(network, address string, timeout time.Duration) (net.Conn, error) {
+		var peer uint64
+		if _, err := fmt.Sscanf(address, "M%d:", &peer); err == nil && calledFromElection() {
+			return &simPeerConn{n: n, peer: peer, abort: n.abortCh(), out: make(chan []byte, 4)}, nil
+		}
 		<-n.abortCh()
 		return nil, errSimAbort
 	}
